@@ -15,7 +15,8 @@ EXPLANATION = (
     "(R2) length-factor plumbing: piecewise(x = path_length_vars[i], y = slack_factors_vars[i]) per layer, scaled slack = integer helper of "
     "slack and factor, every family used is declared and switched on by the constructor arguments (V1), helper kinds/bounds match "
     "declarations (V2; one tabled exception for gamma's bound under length factors); position / path-length rows of the base class conform; "
-    "(R3) k=None takes get_width with the synthetic edges, the ignored edges and the scale-0 edges ignored.  NOT decided: feasibility for all "
+    "(R3) k=None takes get_width with the synthetic edges, the ignored edges and the scale-0 edges ignored; (R4) the constructor never writes to the caller's ignore list / options / constraints or "
+    "their shared defaults.  NOT decided: feasibility for all "
     "k >= width, optimality of the slack sum."
 )
 DECIDED = ["error/slack rows, linking and objective present and complete", "length-factor plumbing", "k=None -> width of the non-ignored part"]
@@ -62,3 +63,6 @@ def check(prog: Program, rep):
     providers.numeric_type(prog, rep, "C08.R2", MODELS)
     rep.rule("C08.R3", "k=None -> width of the graph without ignored edges", floor=2)
     k_none_rule(prog, rep, "C08.R3")
+    rep.rule("C08.R4", "the ignore set and options derive only from this call's arguments (no write to caller objects or shared defaults)", floor=6)
+    from rules.c18 import class_inputs_not_mutated
+    class_inputs_not_mutated(prog, rep, "C08.R4", MODELS)
